@@ -1,10 +1,206 @@
-(* CS3G -- SNOW 3G / NEA1 / NIA1 (part of C06, C07, C08); placeholder while the proofs are built *)
-From NV Require Import Lib.Base CS3G.Model CS3G.Proofs.
+(* CS3G -- SNOW 3G, 128-NEA1 (= UEA2 / 128-EEA1) and 128-NIA1 (= UIA2 / 128-EIA1): the algorithm-identity-1
+   part of properties C06, C07 and C08.
+
+   Model:  coq/CS3G/Model.v  -- hand-written, statement by statement, from security/snow3g/snow3g.go
+           and NEA1 / NIA1 (+ mulx, mulxPow, mul) of security/security.go; Go uint8/32/64 wrap-around,
+           bounds-checked indexing (Panic) and loops explicit.
+   Spec:   coq/CS3G/Spec.v   -- ETSI/SAGE "UEA2 & UIA2" Documents 1 and 2 with the TS 33.401 Annex B /
+           TS 33.501 Annex D parameter mapping, written independently of the code, S-boxes pinned and
+           checked against their algebraic definitions, validated by the published test sets.
+   Bit strings: bit 0 is the most significant bit of octet 0 (Spec.octets_bits).
+
+   Domain bounds that appear below and come from the Go types:
+     8*len(payload) < 2^32 - 31   (NEA1's bit length is a uint32 and NEA1 computes length+31;
+                                   see CS3G_api_length_wrap_observation for what happens at 2^29 octets)
+     len(msg) < 2^60              (NIA1's bit length is a uint64 and NIA1 computes length+63). *)
+From NV Require Import Lib.Base CS3G.Model CS3G.Spec CS3G.Proofs.
 Open Scope N_scope.
 
-Theorem CS3G_model_test_set_1 :
+(* ---- C06: SNOW 3G ------------------------------------------------------------------------- *)
+(* snow3g.GetKeyStream(k, iv, n) is the specification's keystream z_1..z_n, for all 32-bit key and
+   IV words and every n (in particular it never panics) *)
+Theorem CS3G_keystream_eq_spec : forall K IV n,
+  length K = 4%nat -> length IV = 4%nat ->
+  Forall (fun w => w < 2 ^ 32) K -> Forall (fun w => w < 2 ^ 32) IV ->
+  Snow3g.GetKeyStream K IV n = Ok (Spec.keystream K IV (N.to_nat n)).
+Proof. exact GetKeyStream_eq_spec. Qed.
+
+(* the first n keystream words do not depend on how many are requested *)
+Theorem CS3G_keystream_prefix : forall K IV n m,
+  Spec.keystream K IV n = firstn n (Spec.keystream K IV (n + m)).
+Proof. exact keystream_prefix. Qed.
+
+(* ---- C06: NEA1 = UEA2 for every bit length ------------------------------------------------ *)
+(* for every key, COUNT, BEARER < 32, DIRECTION < 2, input and bit length <= 8*len(ibs): NEA1 returns
+   an output of the input's length whose first `length` bits are the standard's output for the
+   first `length` input bits *)
+Theorem CS3G_nea1_eq_uea2 : forall ck count bearer direction ibs length,
+  List.length ck = 16%nat -> bytes_ok ck -> count < 2 ^ 32 -> bearer < 32 -> direction < 2 ->
+  length <= 8 * N.of_nat (List.length ibs) -> 8 * N.of_nat (List.length ibs) < 2 ^ 32 - 31 ->
+  exists obs,
+    NEA1 ck count bearer direction ibs length = Ok obs /\
+    List.length obs = List.length ibs /\
+    firstn (N.to_nat length) (Spec.octets_bits obs)
+    = Spec.EEA1 ck count bearer direction (firstn (N.to_nat length) (Spec.octets_bits ibs)).
+Proof. exact final_nea1_eq_uea2. Qed.
+
+(* beyond `length` (outside the standard): the remaining bits of the last partial octet are the
+   input's bits, all later octets are zero *)
+Theorem CS3G_nea1_beyond_length_observation : forall ck count bearer direction ibs length obs,
+  List.length ck = 16%nat -> bytes_ok ck -> count < 2 ^ 32 -> bearer < 32 -> direction < 2 ->
+  length <= 8 * N.of_nat (List.length ibs) -> 8 * N.of_nat (List.length ibs) < 2 ^ 32 - 31 ->
+  NEA1 ck count bearer direction ibs length = Ok obs ->
+  (forall i, length <= N.of_nat i -> (i < 8 * N.to_nat ((length + 7) / 8))%nat ->
+             nth i (Spec.octets_bits obs) false = nth i (Spec.octets_bits ibs) false) /\
+  (forall p, (N.to_nat ((length + 7) / 8) <= p)%nat -> nth p obs 0 = 0).
+Proof. exact final_nea1_beyond_length_observation. Qed.
+
+(* the in-place byte-length API with algorithm identity 1 is NEA1 with length = 8*len(payload) *)
+Theorem CS3G_nasencrypt_alg1 : forall key count bearer direction payload,
+  length key = 16%nat -> bytes_ok key -> count < 2 ^ 32 -> bearer < 32 -> direction < 2 ->
+  8 * N.of_nat (length payload) < 2 ^ 32 - 31 ->
+  NASEncrypt_alg1 key count bearer direction payload
+  = NEA1 key count bearer direction payload (8 * N.of_nat (length payload)).
+Proof. exact final_nasencrypt_alg1. Qed.
+
+(* ---- C07: NIA1 = UIA2 with FRESH = BEARER || 0^27, every message bit length including 0 ------- *)
+(* an N-bit message is given as octets whose bits beyond N are zero *)
+Theorem CS3G_nia1_eq_uia2 : forall ik count bearer direction msg length,
+  List.length ik = 16%nat -> bytes_ok ik -> bytes_ok msg -> count < 2 ^ 32 -> bearer < 32 -> direction < 2 ->
+  length <= 8 * N.of_nat (List.length msg) -> N.of_nat (List.length msg) < 2 ^ 60 ->
+  (forall k, length <= N.of_nat k -> nth k (Spec.octets_bits msg) false = false) ->
+  NIA1 ik count bearer direction msg length
+  = Ok (Spec.mac_octets (Spec.EIA1 ik count bearer direction (firstn (N.to_nat length) (Spec.octets_bits msg)))).
+Proof. exact final_nia1_eq_uia2. Qed.
+
+(* the byte-length API with algorithm identity 1 *)
+Theorem CS3G_nasmac_alg1 : forall ik count bearer direction msg,
+  length ik = 16%nat -> bytes_ok ik -> bytes_ok msg -> count < 2 ^ 32 -> bearer < 32 -> direction < 2 ->
+  N.of_nat (length msg) < 2 ^ 60 ->
+  NASMacCalculate_alg1 ik count bearer direction msg
+  = Ok (Spec.mac_octets (Spec.EIA1 ik count bearer direction (Spec.octets_bits msg))).
+Proof. exact final_nasmac_alg1. Qed.
+
+(* ---- C08 (algorithm identity 1): laws of ciphering with length = 8*len(payload) ------------ *)
+Theorem CS3G_nea1_length : forall ck count bearer direction p,
+  length ck = 16%nat -> bytes_ok ck -> count < 2 ^ 32 -> bearer < 32 -> direction < 2 ->
+  8 * N.of_nat (length p) < 2 ^ 32 - 31 ->
+  exists c, NEA1 ck count bearer direction p (8 * N.of_nat (length p)) = Ok c /\ length c = length p.
+Proof. exact final_nea1_length. Qed.
+
+Theorem CS3G_nea1_involution : forall ck count bearer direction p c,
+  length ck = 16%nat -> bytes_ok ck -> count < 2 ^ 32 -> bearer < 32 -> direction < 2 ->
+  8 * N.of_nat (length p) < 2 ^ 32 - 31 ->
+  NEA1 ck count bearer direction p (8 * N.of_nat (length p)) = Ok c ->
+  NEA1 ck count bearer direction c (8 * N.of_nat (length c)) = Ok p.
+Proof. exact final_nea1_involution. Qed.
+
+Theorem CS3G_nea1_prefix : forall ck count bearer direction p c n,
+  length ck = 16%nat -> bytes_ok ck -> count < 2 ^ 32 -> bearer < 32 -> direction < 2 ->
+  8 * N.of_nat (length p) < 2 ^ 32 - 31 -> (n <= length p)%nat ->
+  NEA1 ck count bearer direction p (8 * N.of_nat (length p)) = Ok c ->
+  NEA1 ck count bearer direction (firstn n p) (8 * N.of_nat (length (firstn n p))) = Ok (firstn n c).
+Proof. exact final_nea1_prefix. Qed.
+
+(* ciphertext xor plaintext is the same for all plaintexts of the same length *)
+Theorem CS3G_nea1_keystream_indep : forall ck count bearer direction p q c d,
+  length ck = 16%nat -> bytes_ok ck -> count < 2 ^ 32 -> bearer < 32 -> direction < 2 ->
+  8 * N.of_nat (length p) < 2 ^ 32 - 31 -> length q = length p ->
+  NEA1 ck count bearer direction p (8 * N.of_nat (length p)) = Ok c ->
+  NEA1 ck count bearer direction q (8 * N.of_nat (length q)) = Ok d ->
+  xor_octets c p = xor_octets d q.
+Proof. exact final_nea1_keystream_indep. Qed.
+
+(* no panic / hang: the per-algorithm functions on their domain (every bit length, also 0), and the API
+   entry points with algorithm identity 1 for EVERY bearer and direction octet and every payload
+   (also empty): Ok or Err, never Panic *)
+Theorem CS3G_total : forall key count bearer direction data length,
+  List.length key = 16%nat -> bytes_ok key -> bytes_ok data -> count < 2 ^ 32 ->
+  8 * N.of_nat (List.length data) < 2 ^ 32 - 31 ->
+  is_total (NASEncrypt_alg1 key count bearer direction data) /\
+  is_total (NASMacCalculate_alg1 key count bearer direction data) /\
+  (bearer < 32 -> direction < 2 -> length <= 8 * N.of_nat (List.length data) ->
+     is_total (NEA1 key count bearer direction data length) /\
+     ((forall k, length <= N.of_nat k -> nth k (Spec.octets_bits data) false = false) ->
+      is_total (NIA1 key count bearer direction data length))).
+Proof. exact final_total. Qed.
+
+Theorem CS3G_keystream_total : forall K IV n,
+  length K = 4%nat -> length IV = 4%nat ->
+  Forall (fun w => w < 2 ^ 32) K -> Forall (fun w => w < 2 ^ 32) IV ->
+  is_total (Snow3g.GetKeyStream K IV n).
+Proof. exact total_keystream. Qed.
+
+(* the MAC is exactly 4 octets *)
+Theorem CS3G_mac_len4 : forall ik count bearer direction msg length,
+  List.length ik = 16%nat -> bytes_ok ik -> bytes_ok msg -> count < 2 ^ 32 -> bearer < 32 -> direction < 2 ->
+  length <= 8 * N.of_nat (List.length msg) -> N.of_nat (List.length msg) < 2 ^ 60 ->
+  (forall k, length <= N.of_nat k -> nth k (Spec.octets_bits msg) false = false) ->
+  exists mac, NIA1 ik count bearer direction msg length = Ok mac /\ List.length mac = 4%nat.
+Proof. exact final_mac_len4. Qed.
+
+(* key and message are not modified: NEA1 / NIA1 / the wrappers are functions of their arguments that
+   return a new value (functional model); on the implementation this is checked by the harness. *)
+
+(* ---- observations outside the domain ------------------------------------------------------- *)
+(* exactly 2^29 octets through the API: 8*len wraps to 0 in uint32 and the payload is overwritten
+   with zeros (NEA1 with bit length 0) instead of being enciphered *)
+Theorem CS3G_api_length_wrap_observation : forall key count bearer direction payload,
+  length key = 16%nat -> bytes_ok key -> count < 2 ^ 32 -> bearer < 32 -> direction < 2 ->
+  N.of_nat (length payload) = 536870912 ->
+  NASEncrypt_alg1 key count bearer direction payload = Ok (repeat 0 (length payload)).
+Proof. exact api_length_wrap_observation. Qed.
+
+(* NIA1 does not mask pad bits: garbage there changes the MAC (the standard's input is the N-bit message) *)
+Theorem CS3G_nia1_padbits_observation :
+  let key := [0x2b; 0xd6; 0x45; 0x9f; 0x82; 0xc5; 0xb3; 0x00; 0x95; 0x2c; 0x49; 0x10; 0x48; 0x81; 0xff; 0x48] in
+  NIA1 key 0x38a6f056 0x1f 0 [0xA0] 4 = Ok (Spec.mac_octets (Spec.EIA1 key 0x38a6f056 0x1f 0 [true; false; true; false])) /\
+  NIA1 key 0x38a6f056 0x1f 0 [0xAF] 4 <> NIA1 key 0x38a6f056 0x1f 0 [0xA0] 4.
+Proof. exact nia1_padbits_observation. Qed.
+
+(* ---- non-vacuity: the hypotheses hold on published test data, and the conclusions compute ---- *)
+Example CS3G_example_keystream :
   Snow3g.GetKeyStream [0x2bd6459f; 0x82c5b300; 0x952c4910; 0x4881ff48]
                       [0xea024714; 0xad5c4d84; 0xdf1f9b25; 0x1c0bf45f] 2
   = Ok [0xabee9704; 0x7ac31373].
 Proof. exact model_snow3g_test_set_1. Qed.
-Print Assumptions CS3G_model_test_set_1.
+
+Example CS3G_example_nea1 :
+  let ck := [0x5a; 0xcb; 0x1d; 0x64; 0x4c; 0x0d; 0x51; 0x20; 0x4e; 0xa5; 0xf1; 0x45; 0x10; 0x10; 0xd8; 0x52] in
+  let p := [0xad; 0x9c; 0x44; 0x1f; 0x89; 0x0b; 0x38; 0xc4; 0x57; 0xa4; 0x9d; 0x42; 0x14; 0x07; 0xe8] in
+  let c := [0xba; 0x0f; 0x31; 0x30; 0x03; 0x34; 0xc5; 0x6b; 0x52; 0xa7; 0x49; 0x7c; 0xba; 0xc0; 0x46] in
+  nea1_domain8 ck 0xfa556b26 3 1 p /\
+  NEA1 ck 0xfa556b26 3 1 p 120 = Ok c /\ NEA1 ck 0xfa556b26 3 1 c 120 = Ok p /\
+  NASEncrypt_alg1 ck 0xfa556b26 3 1 p = Ok c.
+Proof. exact model_eea1_test_set_3. Qed.
+
+Example CS3G_example_nia1 :
+  let m := [0x33; 0x32; 0x34; 0x62; 0x63; 0x39; 0x38; 0x61; 0x37; 0x34; 0x79] in
+  nia1_domain8 key1 0x38a6f056 0x1f 0 m /\
+  NIA1 key1 0x38a6f056 0x1f 0 m 88 = Ok [0x73; 0x1f; 0x11; 0x65] /\
+  NASMacCalculate_alg1 key1 0x38a6f056 0x1f 0 m = Ok [0x73; 0x1f; 0x11; 0x65] /\
+  exists mac, NIA1 key1 0x38a6f056 0x1f 0 [] 0 = Ok mac /\ length mac = 4%nat.
+Proof. exact model_eia1_test_set_1. Qed.
+
+(* domains with a bit length that is not a multiple of 8 are inhabited *)
+Example CS3G_example_bit_domains :
+  nea1_domain key1 0x72a4f20f 0x0c 1 [0x7e; 0xc6; 0x12; 0x72; 0x74] 37 /\
+  nia1_domain key1 0x36af6144 0x18 1 [0xb3; 0xd3; 0xc9; 0x14] 30.
+Proof. split; [exact nea1_domain_bit_example | exact nia1_domain_bit_example]. Qed.
+
+Print Assumptions CS3G_keystream_eq_spec.
+Print Assumptions CS3G_keystream_prefix.
+Print Assumptions CS3G_nea1_eq_uea2.
+Print Assumptions CS3G_nea1_beyond_length_observation.
+Print Assumptions CS3G_nasencrypt_alg1.
+Print Assumptions CS3G_nia1_eq_uia2.
+Print Assumptions CS3G_nasmac_alg1.
+Print Assumptions CS3G_nea1_length.
+Print Assumptions CS3G_nea1_involution.
+Print Assumptions CS3G_nea1_prefix.
+Print Assumptions CS3G_nea1_keystream_indep.
+Print Assumptions CS3G_total.
+Print Assumptions CS3G_keystream_total.
+Print Assumptions CS3G_mac_len4.
+Print Assumptions CS3G_api_length_wrap_observation.
+Print Assumptions CS3G_nia1_padbits_observation.
